@@ -54,6 +54,7 @@ INT_TYPES = [20, 21, 22, 23, 24, 25]
 FLOAT_TYPES = [5, 6]
 NUM_TYPES = INT_TYPES + FLOAT_TYPES
 SIG_STRIP = "sds-above-1MiB:nfound-of-last-strip-only"
+SIG_SINGLE = "object-in-one-file-only:listed-by-match-but-not-counted"
 
 
 # ------------------------------------------------------------------------------------------------
@@ -456,16 +457,22 @@ def check_pair(env, ctx, kind, what, t1, t2, st, sdspos=None, files=None):
     body = hd_record(kind, what, t1, t2)
     side = "\n# spec exit: %s   model exit: %s   hdiff exit: %d\n# hdiff output:\n# %s\n# stderr: %s\n" % (
         s_exit, m_exit, rc, out[-1200:].replace("\n", "\n# "), err[-600:].replace("\n", "\n# "))
-    sig = None
     if crashed(rc):
         ctx.violation("hdiff crashed (rc=%d) on %s: %s" % (rc, kind, what), body + side, found=True)
         return
+    r_tbl = parse_match_table(out) if verbose else None
     if str(rc) != s_exit:
+        # known finding: the only difference is an object present in one file only; match() lists it (the table
+        # printed by -b agrees with cmatch and has a one-sided entry) but does not count it
+        sig = None
+        if verbose and rc == 0 and m_exit == "0" and r_tbl == m_tbl and ("x-:" in m_tbl or "-x:" in m_tbl) \
+                and parts[3].split()[1] != "0":
+            sig = SIG_SINGLE
+            st["one_sided_known"] = st.get("one_sided_known", 0) + 1
         ctx.violation("hdiff exit status %d, specification says %s (%s: %s)" % (rc, s_exit, kind, what), body + side,
                       found=True, signature=sig)
         return
     if verbose:
-        r_tbl = parse_match_table(out)
         if r_tbl != m_tbl:
             ctx.violation("match table of hdiff -b differs from cmatch", body + "\n# model table: %s\n# hdiff table: %s\n" % (m_tbl, r_tbl),
                           found=False)
@@ -820,7 +827,7 @@ def replay_text(env, ctx, text, report=True):
             return 0 if str(rcq) == s_exit else 1
         st = {"runs": 0, "kinds": {}, "positions_checked": 0}
         if head[0] == "HD":
-            check_pair(env, ctx, "corpus", " ".join(head[1:]), t1, t2, st)
+            check_pair(env, ctx, head[1] if len(head) > 1 else "corpus", " ".join(head[1:]), t1, t2, st)
         return 0
     if head[0] == "DUMP":
         t = "\n".join(body[1:]) + "\n"
